@@ -393,9 +393,13 @@ func cellOnly(a *ssa.Alloc) bool {
 
 func (e *Eval) mapComps(u *types.Map) (string, string) {
 	ks, vs := e.c.Sort(u.Key()), e.c.Sort(u.Elem())
-	base := "M." + sanitize(ks) + "." + sanitize(vs)
+	base := "M." + sanitize(typeKey(u))
 	e.c.DeclComp(base+".dom", fmt.Sprintf("(Array Int (Array %s Bool))", ks))
 	e.c.DeclComp(base+".val", fmt.Sprintf("(Array Int (Array %s %s))", ks, vs))
+	switch u.Elem().Underlying().(type) {
+	case *types.Pointer, *types.Map, *types.Chan:
+		e.c.ptrComps[base+".val"] = "map:" + ks
+	}
 	return base + ".dom", base + ".val"
 }
 
